@@ -35,6 +35,8 @@ CONSTANTS
   Exec,         \* the native execution: sequence of addresses
   Loc,          \* address -> observable location name (source line marker)
   HotPos,       \* positions of Exec at which `hot` holds
+  IterAt,       \* position (0..N+1) -> value of the program's own iteration counter there (ground truth
+                \* for WHICH arrival at the loop line a stop is; read from the debuggee's memory)
   WritePos,     \* positions of Exec after which the watched datum has been written
   HwDelivers,   \* does the hardware deliver data breakpoints (FALSE in this sandbox, R4)
   DataKnown,    \* resolvable data ids
@@ -115,7 +117,7 @@ RRunN(r, p, hits, outs, nopt) ==
 RRun(r, p, hits, outs) == RRunN(r, p, hits, outs, 0)
 
 RApplyRun(r, res) == [r EXCEPT !.st = res.st, !.pos = res.pos, !.hits = res.hits]
-RObs(res) == [outs |-> res.outs, stop |-> res.stop]
+RObs(res) == [outs |-> res.outs, stop |-> res.stop, it |-> IterAt[res.pos]]
 
 \* a set request creates new breakpoints of its kind: counters of that kind start at 0
 RSetKind(r, kind, req) ==
@@ -255,16 +257,25 @@ OneOpt(S, optsOf(_)) ==      \* functions on S with at most one non-"none" optio
   UNION {{[x \in S |-> IF x = l THEN o ELSE "none"] : o \in optsOf(l)} : l \in S}
 AnyOpt(S, optsOf(_)) ==
   LET F == [S -> Opt] IN {f \in F : \A x \in S : f[x] = "none" \/ f[x] \in optsOf(x)}
+\* "focus": a narrow alphabet for generation -- options on a live process (a plain breakpoint to stop at
+\* first, then option-carrying breakpoints on the lines still ahead); every request is also in "small"
+Focus == Alphabet = "focus"
+FocusLines == {S \in SUBSET Lines : Cardinality(S) <= 1} \cup {{l, m} : l \in Lines \ CondLines, m \in CondLines}
 SrcReqs == LET real == IF Alphabet = "full" THEN UNION {AnyOpt(S, LineOpts) : S \in SUBSET Lines}
+                       ELSE IF Focus THEN UNION {OneOpt(S, LineOpts) : S \in FocusLines}
                        ELSE UNION {OneOpt(S, LineOpts) : S \in SUBSET Lines}
-           IN real \cup {[x \in DOMAIN f \cup NoCode |-> IF x \in NoCode THEN "none" ELSE f[x]] :
-                           f \in {g \in real : Cardinality(DOMAIN g) <= 1}}
+           IN IF Focus THEN real
+              ELSE real \cup {[x \in DOMAIN f \cup NoCode |-> IF x \in NoCode THEN "none" ELSE f[x]] :
+                                f \in {g \in real : Cardinality(DOMAIN g) <= 1}}
 FnOpts(n) == {"cfalse", "hit2", "log"}
-FnReqs == UNION {OneOpt(S, FnOpts) : S \in SUBSET (DOMAIN FnPlaces)}
+FnReqs == IF Focus THEN {Empty} \cup {[n \in {m} |-> "none"] : m \in {x \in DOMAIN FnPlaces : FnPlaces[x] # {}}}
+          ELSE UNION {OneOpt(S, FnOpts) : S \in SUBSET (DOMAIN FnPlaces)}
 InsnOpts(a) == IF a \in InsnOk THEN {"cfalse", "log"} ELSE {}
-InsnReqs == UNION {OneOpt(S, InsnOpts) : S \in {{}} \cup {{a} : a \in InsnOk} \cup {{b} : b \in InsnBogus}
-                                               \cup {{a, b} : a \in InsnOk, b \in InsnBogus}}
-DataReqs == {{}} \cup {{d} : d \in DataKnown} \cup {{d, u} : d \in DataKnown, u \in DataUnknown}
+InsnReqs == IF Focus THEN UNION {OneOpt(S, InsnOpts) : S \in {{}} \cup {{a} : a \in InsnOk}}
+            ELSE UNION {OneOpt(S, InsnOpts) : S \in {{}} \cup {{a} : a \in InsnOk} \cup {{b} : b \in InsnBogus}
+                                                    \cup {{a, b} : a \in InsnOk, b \in InsnBogus}}
+DataReqs == IF Focus THEN {{}}
+            ELSE {{}} \cup {{d} : d \in DataKnown} \cup {{d, u} : d \in DataKnown, u \in DataUnknown}
 
 -----------------------------------------------------------------------------
 Init == /\ ref = RefInit /\ impl = [c \in Cfgs |-> IInit] /\ nreq = 0
@@ -299,9 +310,10 @@ RunAct(cmd, from, rres, ires) ==
   /\ ref' = RApplyRun(ref, rres)
   /\ impl' = [c \in Cfgs |-> ires[c].s]
   /\ last' = [kind |-> "run", cmd |-> cmd, from |-> from, robs |-> RObs(rres),
-              iobs |-> [c \in Cfgs |-> [outs |-> ires[c].outs, stop |-> ires[c].stop]],
+              iobs |-> [c \in Cfgs |-> [outs |-> ires[c].outs, stop |-> ires[c].stop, it |-> IterAt[ires[c].s.pos]]],
               muted |-> [c \in Cfgs |-> impl[c].term]]
-  /\ Log(cmd, <<>>, [outs |-> rres.outs, stop |-> rres.stop, nopt |-> rres.nopt], [c \in Cfgs |-> [outs |-> ires[c].outs, stop |-> ires[c].stop]])
+  /\ Log(cmd, <<>>, [outs |-> rres.outs, stop |-> rres.stop, it |-> IterAt[rres.pos], nopt |-> rres.nopt],
+         [c \in Cfgs |-> [outs |-> ires[c].outs, stop |-> ires[c].stop, it |-> IterAt[ires[c].s.pos]]])
   /\ nreq' = nreq + 1
 
 ConfigurationDone ==
@@ -320,15 +332,22 @@ Do(k) == \/ k = "src" /\ \E r \in SrcReqs : SetBreakpoints(r)
          \/ k = "data" /\ \E r \in DataReqs : SetDataBreakpoints(r)
          \/ k \in {"go", "go2", "go3", "go4"} /\ (ConfigurationDone \/ Continue)
          \/ k = "restart" /\ Restart
-Classes == {"src", "fn", "insn", "data", "go", "go2", "go3", "go4", "restart"}
+         \/ k = "src0" /\ \E r \in {f \in SrcReqs : DOMAIN f # {} /\ \A x \in DOMAIN f : f[x] = "none"} : SetBreakpoints(r)
+Classes == {"src", "fn", "insn", "data", "go", "go2", "go3", "go4", "restart", "src0"}
+\* focus generation follows a plan of request classes: plain breakpoints, start, then option-carrying
+\* requests on the live process alternating with run requests (all randomness goes into the requests)
+FocusPlan == << {"src0"}, {"go"}, {"src", "insn"}, {"go", "restart"}, {"src", "fn"}, {"go"} >>
 \* generation only: at most MaxPre requests before configurationDone, so that most of a history is
 \* spent with a live process (the exhaustive configurations have no such bound)
 MaxPre == 2
-ClassEnabled(k) == CASE k \in {"go", "go2", "go3", "go4"} -> ref.st # "exited"
+ClassEnabled(k) == CASE Focus /\ (nreq + 1 > Len(FocusPlan) \/ k \notin FocusPlan[nreq + 1]) -> FALSE
+                     [] k = "src0" -> Focus
+                     [] k \in {"go", "go2", "go3", "go4"} -> ref.st # "exited"
                      [] ref.st = "unload" /\ nreq >= MaxPre -> FALSE
                      \* generation binds restart of a live process only: after `exited` the adapter is
                      \* `terminated` (drops events) and restart-after-exit belongs to C11/C12
                      [] k = "restart" -> ref.st = "stopped" /\ RestartUnambiguous(ref)
+                     [] k = "data" -> ~Focus
                      [] OTHER -> TRUE
 Pick == /\ cls = ""
         /\ nreq < MaxReq
@@ -339,9 +358,20 @@ Done == /\ Emit /\ nreq = MaxReq /\ cls = ""
         /\ PrintT(<<"BEH", ToJson(hist)>>)
         /\ cls' = "done"
         /\ UNCHANGED <<ref, impl, nreq, last, hist>>
-Next == IF TwoPhase THEN Pick \/ (cls \in Classes /\ Do(cls) /\ cls' = "") \/ Done
-        ELSE (\E k \in Classes \ {"go2", "go3", "go4"} : Do(k)) /\ UNCHANGED cls
+\* exhaustive configurations: one named action per request kind (TLC's coverage reports them by name)
+ASetBreakpoints == (\E r \in SrcReqs : SetBreakpoints(r)) /\ UNCHANGED cls
+ASetFunctionBreakpoints == (\E r \in FnReqs : SetFunctionBreakpoints(r)) /\ UNCHANGED cls
+ASetInstructionBreakpoints == (\E r \in InsnReqs : SetInstructionBreakpoints(r)) /\ UNCHANGED cls
+ASetDataBreakpoints == (\E r \in DataReqs : SetDataBreakpoints(r)) /\ UNCHANGED cls
+AConfigurationDone == ConfigurationDone /\ UNCHANGED cls
+AContinue == Continue /\ UNCHANGED cls
+ARestart == Restart /\ UNCHANGED cls
+Next == \/ ASetBreakpoints \/ ASetFunctionBreakpoints \/ ASetInstructionBreakpoints \/ ASetDataBreakpoints
+        \/ AConfigurationDone \/ AContinue \/ ARestart
+\* generation (simulation): class first, then the request, then print
+NextG == Pick \/ (cls \in Classes /\ Do(cls) /\ cls' = "") \/ Done
 Spec == Init /\ [][Next]_vars
+SpecG == Init /\ [][NextG]_vars
 
 -----------------------------------------------------------------------------
 (*                     properties (stated for every cfg in Cfgs)            *)
@@ -369,6 +399,7 @@ StopsExactlyAtLatest ==
 OptionsHonouredWheneverSet ==
   last.kind = "run" =>
     \A c \in Cfgs : /\ last.iobs[c].stop = last.robs.stop
+                    /\ last.iobs[c].it = last.robs.it          \* the same arrival, not only the same line
                     /\ ~last.muted[c] => last.iobs[c].outs = last.robs.outs
 \* the two machines agree on where the program is (sanity of the side-by-side construction)
 InSync == \A c \in Cfgs : impl[c].st = ref.st /\ impl[c].pos = ref.pos
